@@ -33,6 +33,8 @@ pub struct GenOpts {
     pub hostile_outputs: f64,
     /// Probability that a reader asks for a hostile number of keys (-1 .. i64::MAX).
     pub hostile_reads: f64,
+    /// Probability of a graph at the validator's limits (200 / 999 / 1000 nodes; chains and fans).
+    pub big_graphs: f64,
 }
 
 impl Default for GenOpts {
@@ -48,6 +50,7 @@ impl Default for GenOpts {
             p_overlap: 0.03,
             hostile_outputs: 0.02,
             hostile_reads: 0.0,
+            big_graphs: 0.0,
         }
     }
 }
@@ -325,6 +328,26 @@ fn gen_dag(r: &mut Rng, n: usize) -> AbsGraph {
     AbsGraph { children: ch }
 }
 
+/// A graph at the validator's limits: a chain, or a fan of many leaves (at most 1000 edges).
+fn gen_big_dag(r: &mut Rng, n: usize) -> AbsGraph {
+    let mut ch: Vec<Vec<usize>> = vec![vec![]; n];
+    if r.chance(0.5) {
+        for i in 0..n - 1 {
+            ch[i].push(i + 1);
+        }
+    } else {
+        // a few roots in a chain, everything else a leaf below the last of them
+        let roots = 1 + r.below(3);
+        for i in 0..roots - 1 {
+            ch[i].push(i + 1);
+        }
+        for j in roots..n.min(roots + 998) {
+            ch[roots - 1].push(j);
+        }
+    }
+    AbsGraph { children: ch }
+}
+
 /// Encode an abstract DAG under a random numbering. Returns (predicate-without-programs, order)
 /// where `order[index] = abstract id`.
 fn encode_graph(r: &mut Rng, g: &AbsGraph) -> (Vec<(Edge, usize)>, Vec<Edge>, Vec<usize>) {
@@ -371,12 +394,17 @@ pub fn gen_scenario(r: &mut Rng, o: &GenOpts) -> Scenario {
     let mut data_keys: Vec<Vec<Vec<Vec<Word>>>> = vec![]; // per predicate, per data leaf: keys it writes
     for pidx in 0..npred {
         let mut computed = 0i64;
-        let n = match r.below(10) {
-            0 => 1,
-            1 => 2,
-            _ => 1 + r.below(o.max_nodes),
+        let big = r.chance(o.big_graphs);
+        let n = if big {
+            *r.pick(&[200usize, 999, 1000])
+        } else {
+            match r.below(10) {
+                0 => 1,
+                1 => 2,
+                _ => 1 + r.below(o.max_nodes),
+            }
         };
-        let g = gen_dag(r, n);
+        let g = if big { gen_big_dag(r, n) } else { gen_dag(r, n) };
         let (nodes, edges, _order) = encode_graph(r, &g);
         let mut progs = vec![];
         let mut ids = vec![];
